@@ -248,6 +248,20 @@ let model_run (line : string) : string =
         end else canon_terse (run cfg0 ListTerse)
       | 'D' -> dump_of benches groups
       | 'K' -> ""   (* marker: the case has a module / generic function name clash *)
+      | 'a' | 'b' | 'c' | 'd' | 'f' | 'g' | 'h' | 'j' | 'k' ->
+        (* (list, test, bench, terse accepted) as the harness passes them for this letter *)
+        let (l, t, b, terse) = match act with
+          | 'a' | 'b' -> (true, false, true, false)
+          | 'c' | 'd' -> (true, false, true, true)
+          | 'f' | 'g' -> (false, true, true, false)
+          | 'h' -> (false, false, false, false)
+          | 'j' -> (true, true, false, false)
+          | _ -> (true, false, true, false) in
+        (match action_of_flags l t b terse with
+         | None -> "!!exit2"
+         | Some ListTerse -> canon_terse (run cfg0 ListTerse)
+         | Some List -> canon_tree (run cfg0 List) false made
+         | Some a -> canon_tree (run cfg0 a) true made)
       | 'R' | 'Q' -> canon_tree (run cfg0 Test) true made
       | 'L' | 'A' -> canon_tree (run cfg0 List) false made
       | 'E' ->
@@ -327,9 +341,19 @@ let c14_sb (line : string) : string =
   let secs = sections_of impl in
   let fail = ref [] in
   let bad s = fail := s :: !fail in
-  let terse = ref None and ran = ref None in
+  let terse = ref None and ran = ref None and terse_more = ref [] in
   List.iter (fun (act, body) ->
     match act with
+    | 'j' ->
+      (* --list --test is rejected by the command-line parser: nothing may run *)
+      (match split_bang body with
+       | _ :: log :: _ -> if items_of log <> [] then bad "rejected-command-line-invoked-something"
+       | _ -> ())
+    | 'c' | 'd' ->
+      let (ls, log, rest) = read_terse body in
+      if rest <> [] then bad ("terse-status:" ^ String.concat "," rest);
+      if not (c14_quiet_sb (n_of_small (List.length log))) then bad "terse-listing-with-bench-flag-invoked-something";
+      terse_more := ls :: !terse_more
     | 'T' ->
       let (ls, log, rest) = read_terse body in
       if rest <> [] then bad ("terse-status:" ^ String.concat "," rest);
@@ -340,7 +364,7 @@ let c14_sb (line : string) : string =
         if List.sort compare ls <> exp_lines then bad "terse-listing-differs-from-the-program"
       end;
       terse := Some ls
-    | 'R' | 'Q' ->
+    | 'R' | 'Q' | 'f' | 'g' | 'h' ->
       let (items, _, rest) = read_tree body in
       if rest <> [] then bad ("run-status:" ^ String.concat "," rest);
       if has_mismatch items then bad "run-leaves-and-calls-differ";
@@ -366,11 +390,12 @@ let c14_sb (line : string) : string =
                ^ " unexpected=" ^ String.concat "+" (List.filter (fun x -> not (List.mem x expected)) got))
       end;
       if act = 'R' then ran := Some (executed_paths items)
-    | 'L' | 'A' ->
+    | 'L' | 'A' | 'a' | 'b' | 'k' ->
       let (_, log, rest) = read_tree body in
       if rest <> [] then bad ("list-status:" ^ String.concat "," rest);
       if not (c14_quiet_sb (n_of_small (List.length (items_of log)))) then
-        bad (if act = 'A' then "list_benches-invoked-something" else "list-invoked-something")
+        bad (if act = 'A' then "list_benches-invoked-something" else if act = 'L' then "list-invoked-something"
+             else "list-with-bench-flag-invoked-something")
     | 'E' ->
       (* guard of the round trip: display paths of all cases are unique *)
       let all = List.map (fun ((p, _), _) -> ts p) (cases [] (build_tree benches groups)) in
@@ -391,6 +416,11 @@ let c14_sb (line : string) : string =
    | Some t, Some r ->
      if not (c14_terse_sb (List.map st t) (List.map st r)) then bad "terse-listing-differs-from-what-the-run-executes"
    | _ -> ());
+  (match !ran with
+   | Some r ->
+     List.iter (fun t -> if not (c14_terse_sb (List.map st t) (List.map st r)) then
+                   bad "terse-listing-with-bench-flag-differs-from-what-the-run-executes") !terse_more
+   | None -> ());
   if !fail = [] then "true" else "false " ^ String.concat " " (List.rev !fail)
 
 (* ---- C12: what ran against the flat semantics (every entry at its module path, with the names and
